@@ -15,6 +15,7 @@ PROFILES = [
     (3, dict(_base)),
     (1, dict(_base, name="deep-sync", p_sync=0.35, max_depth=6)),
     (1, dict(_base, name="single", roots=(1, 1), budget=20)),
+    (2, dict(_base, name="guard", p_maxstack=0.9, p_ctx_fault=0.05, p_item=0.6, max_width=5)),
 ]
 
 
